@@ -43,25 +43,33 @@ Definition countb (e : ev) (l : list ev) : nat := length (filter (ev_eqb e) l).
 
 Definition names (c : conn) : list N := map ch_name (cn_chans c).
 
-(* Well-formed node state: client ids unique, channel names unique per connection
-   (both are Go map keys). *)
+(* Well-formed node state: client ids unique, channel names (established and reserved)
+   unique per connection (both are Go map keys). *)
 Definition wf (s : list conn) : Prop :=
-  NoDup (map cn_id s) /\ forall c, In c s -> NoDup (names c).
+  NoDup (map cn_id s) /\ forall c, In c s -> NoDup (snapshot c).
+
+(* subscribe attempts of a connection which the application rejects *)
+Definition cancelled (c : conn) : list chan := map fst (filter (fun a => negb (snd a)) (cn_inflight c)).
 
 Record UnsubAllSpec (t : target) (code : N) (s : list conn) (o : list oconn) (evs : list ev) : Prop := {
   sp_ids : map oc_id o = map cn_id s;
   (* every matching connection ends without channels (and without hub routing) *)
   sp_targeted : forall c oc, In (c, oc) (combine s o) -> targeted t c = true ->
                   oc_chans oc = [] /\ oc_hub oc = [];
-  (* other connections keep all their subscriptions *)
+  (* other connections keep all their subscriptions, incl. the attempts that succeed *)
   sp_frame : forall c oc, In (c, oc) (combine s o) -> targeted t c = false ->
-                  oc_chans oc = names c /\ oc_hub oc = names c;
-  (* each usual effect of each subscription of a matching connection happened exactly once *)
-  sp_effects : forall c chn e, In c s -> targeted t c = true -> In chn (cn_chans c) ->
+                  oc_chans oc = names (resolve c) /\ oc_hub oc = names (resolve c);
+  (* each usual effect of each subscription (established, or established by an attempt in
+     flight) of a matching connection happened exactly once *)
+  sp_effects : forall c chn e, In c s -> targeted t c = true -> In chn (cn_chans (resolve c)) ->
                   usual_effect (cn_id c) code chn e -> countb e evs = 1%nat;
+  (* a cancelled attempt gets at most its unsubscribe push *)
+  sp_cancelled : forall c chn, In c s -> targeted t c = true -> In chn (cancelled c) ->
+                  (countb (EvPush (cn_id c) (ch_name chn) code) evs <= 1)%nat;
   (* and nothing else happened *)
   sp_only : forall e, In e evs -> exists c chn, In c s /\ targeted t c = true /\
-                  In chn (cn_chans c) /\ usual_effect (cn_id c) code chn e
+                  ((In chn (cn_chans (resolve c)) /\ usual_effect (cn_id c) code chn e) \/
+                   (In chn (cancelled c) /\ e = EvPush (cn_id c) (ch_name chn) code))
 }.
 
 (* ---- decidable version (the oracle) ---- *)
@@ -81,7 +89,7 @@ Definition usual_effects_l (cid code : N) (chn : chan) : list ev :=
 Definition conn_ok (t : target) (c : conn) (oc : oconn) : bool :=
   if targeted t c
   then match oc_chans oc, oc_hub oc with [], [] => true | _, _ => false end
-  else eqb_listN (oc_chans oc) (names c) && eqb_listN (oc_hub oc) (names c).
+  else eqb_listN (oc_chans oc) (names (resolve c)) && eqb_listN (oc_hub oc) (names (resolve c)).
 
 Fixpoint conns_ok (t : target) (s : list conn) (o : list oconn) : bool :=
   match s, o with
@@ -94,13 +102,15 @@ Definition effects_ok (t : target) (code : N) (s : list conn) (evs : list ev) : 
   forallb (fun c =>
     if targeted t c then
       forallb (fun chn => forallb (fun e => Nat.eqb (countb e evs) 1) (usual_effects_l (cn_id c) code chn))
-              (cn_chans c)
+              (cn_chans (resolve c)) &&
+      forallb (fun chn => Nat.leb (countb (EvPush (cn_id c) (ch_name chn) code) evs) 1) (cancelled c)
     else true) s.
 
 Definition only_ok (t : target) (code : N) (s : list conn) (evs : list ev) : bool :=
   forallb (fun e =>
     existsb (fun c => targeted t c &&
-      existsb (fun chn => existsb (ev_eqb e) (usual_effects_l (cn_id c) code chn)) (cn_chans c)) s) evs.
+      (existsb (fun chn => existsb (ev_eqb e) (usual_effects_l (cn_id c) code chn)) (cn_chans (resolve c)) ||
+       existsb (fun chn => ev_eqb e (EvPush (cn_id c) (ch_name chn) code)) (cancelled c))) s) evs.
 
 Definition unsub_all_spec_b (t : target) (code : N) (s : list conn) (o : list oconn) (evs : list ev) : bool :=
   conns_ok t s o && effects_ok t code s evs && only_ok t code s evs.
